@@ -18,7 +18,10 @@ assignment of the new ramp must be reachable exactly in the documented accept se
 delta >= 10000). A2: on acceptance initial_amp := current amp (compute_amp_factor of the stored ramp at the current
 height), initial_amp_block := block height, future_amp/future_amp_block := the requested values. A3: the three-asset
 direction tables of swap, simulation and reverse simulation are permutations and agree (shared with C14). Solvency,
-D-per-LP monotonicity, there-and-back and linearity of the interpolation are numerical and not decided.
+D-per-LP monotonicity, there-and-back and linearity of the interpolation are numerical and not decided. The shared pool clauses V1 (pending fees excluded wherever pool balances are
+read), V3 (funds validated before pricing, deposits excluded/pulled), V4 (minimum liquidity locked in the pool on the
+first deposit, nothing but Mint/Burn sent to the LP token) and V5 (floor-family rounding only) are decided for the 3-pool
+exactly as for the pair under C01.
 """
 ASSUMPTIONS = ["compute_amp_factor returns the interpolated amplification (numerical content not decided here)"]
 
@@ -101,3 +104,11 @@ def run(ctx):
                 ok = ok and bool(os_) and all(o.kind == "load" and o.a.endswith("::state::CONFIG") and tuple(o.proj) == (nme,) for o in os_)
         ctx.ob("C04-A2", "%s|current-amp-from-stored-ramp" % UC, ok, "StableSwap::new(%s)" % det, v.where(b))
     check_trio_directions(ctx, model, rule="C04-A3")
+    # shared pool-value clauses for the 3-pool
+    from .poolvalue import check_v1_pools, check_v2_v3_pool, check_v4_min_liquidity, check_no_lp_outflow, check_v5_rounding
+    T = "stableswap_3pool"
+    check_v1_pools(ctx, model, T, "C04-V1")
+    check_v2_v3_pool(ctx, model, T, "C04-V3")
+    check_v4_min_liquidity(ctx, model, "%s::commands::provide_liquidity" % T, "C04-V4")
+    check_no_lp_outflow(ctx, model, T, "C04-V4", "liquidity_token")
+    check_v5_rounding(ctx, model, ["%s::commands::provide_liquidity" % T, "%s::commands::withdraw_liquidity" % T, "%s::helpers::compute_swap" % T], "C04-V5")
